@@ -1,43 +1,66 @@
-(** Model of the trigger module (property C17): registry, FIFO queue, begin-block dispatch,
-    create/destroy transactions, end-block detection.
+(** Model of the trigger module (property C17): registry, event listeners, FIFO queue, begin-block dispatch
+    with heterogeneous actions, create/destroy transactions, end-block detection.
 
     Go sources transcribed (x/trigger):
       keeper/trigger_registry.go  RegisterTrigger (gas limit = remaining gas - SetGasLimitCost, capped at
-                                  MaximumTriggerGas, then consumed from the creating tx), UnregisterTrigger
-      keeper/trigger.go           NewTriggerWithID / getNextTriggerID (ids start at 1, never reused)
+                                  MaximumTriggerGas, then consumed from the meter it was taken from: the creating
+                                  tx's meter, or - for a MsgCreateTriggerRequest that is itself a trigger action -
+                                  the running trigger's own meter, which is left with nothing), UnregisterTrigger
+      keeper/trigger.go           NewTriggerWithID / getNextTriggerID (ids start at 1, never reused; the counter
+                                  lives in the store, so a rolled-back creation does not burn an id)
       keeper/gas_limit.go         SetGasLimitCost = 2510, MaximumTriggerGas = 2,000,000
-      keeper/event_detector.go    DetectBlockEvents: detectTransactionEvents (per event of the block's
-                                  history, listeners of that event type in id order, a trigger already looked
-                                  at in this block — matched or not — is skipped), detectBlockHeightEvents and
-                                  detectTimeEvents (listener order = (height|time, id)); then for every
+      keeper/event_listener.go    listener keys = (sha256(lower(trim(prefix))), order, id), iterated in key order
+      types/trigger.go            GetEventPrefix / GetEventOrder: height -> ("block-height", height),
+                                  time -> ("block-time", uint64(Time.UnixNano())), transaction event ->
+                                  (its user-chosen NAME, 0); TransactionEvent.Matches / Attribute.Matches;
+                                  Validate (a block time after time.Unix(0, MaxInt64) is refused: 0ecc451a1)
+                                  / ValidateContext of the three events
+      keeper/event_detector.go    DetectBlockEvents: detectTransactionEvents (per event of the block's history,
+                                  the listeners under the event type's prefix in key order; a listener that is
+                                  not a transaction event never matches; a trigger already MATCHED in this block
+                                  is skipped: commit 77d9b10c4), detectBlockHeightEvents and detectTimeEvents
+                                  (ordered scan: collect the matching listeners, stop AFTER the first height /
+                                  time listener that lies in the future; a listener of another kind under the
+                                  prefix is neither a match nor the end: commit 58a33361d); then for every
                                   detected trigger UnregisterTrigger + QueueTrigger
       keeper/queue.go             Enqueue (tail), QueuePeek/Dequeue (head): start index + length = a list
       keeper/trigger_dispatcher.go ProcessTriggers (MaximumActions = 5, MaximumQueueGas = 2,000,000),
-                                  runActions (cache context, flushed only if every action succeeded),
-                                  handleMsgs / safeHandle (errors, panics and out-of-gas all = failure)
+                                  runActions (cache context, own gas meter, flushed only if every action
+                                  succeeded), handleMsgs / safeHandle (errors, panics and out-of-gas = failure)
       keeper/msg_server.go        CreateTrigger (ValidateContext, owner = authorities[0]), DestroyTrigger
                                   (GetTrigger from the registry only; owner check; unregister + gas limit)
+      keeper/genesis.go           InitGenesis: next id, queue, gas limits, triggers + listeners as given
       types/msgs.go               MsgCreateTriggerRequest.ValidateBasic (>= 1 action, event valid, every action
-                                  valid and each of its signers among the authorities), MsgDestroy… (id <> 0)
-      types/trigger.go            TransactionEvent.Matches / Attribute.Matches, ValidateContext of the events
+                                  passes its own ValidateBasic and each of its signers is an authority),
+                                  MsgDestroy... (id <> 0)
       abci.go, module/module.go   BeginBlocker = ProcessTriggers, EndBlocker = DetectBlockEvents
+    and the handlers the actions reach (read, modelled by their accept condition and their effect):
+      bank Send / MultiSend (one input; inputs = outputs; all amounts positive; balance suffices),
+      marker Transfer (restricted coin; administrator has ACCESS_TRANSFER; administrator <> from needs a marker
+      transfer authorization, which nothing in a history grants), name BindName (restricted parent: the parent
+      address given must own it; the name must be free), authz Grant (granter <> grantee; an expiration must be
+      after the block time), trigger CreateTrigger / DestroyTrigger as above.
 
     Assumed / external:
-    - Accounts, event type names, attribute names and values are interned to [N] by the harness; 0 is the
-      empty string.  Transaction-event names never equal "block-height"/"block-time".
+    - Accounts, event type names, attribute names/values and bound names are interned to [N] by the harness;
+      0 is the empty (blank) string, [P_HEIGHT] = 1 is "block-height", [P_TIME] = 2 is "block-time".  An event
+      name comes with the interned form of lower(trim(name)) - its listener prefix ([lname], [em_ltype]).
     - The SDK runs ValidateBasic, then the ante handler (signature check: the signers of the tx are exactly
       the message's authorities, in order), then the handler; a failing tx leaves the state unchanged.
-    - Actions are bank MsgSend of one denomination that nothing else moves; the bank is a total function to Z
-      and a send fails iff the sender's balance is too small (no holds/vesting/restrictions on these accounts).
-    - Block times and trigger times are exact unix nanoseconds (the listener order key of a time trigger is
-      uint64(UnixNano)); heights and times are inputs of each block.
-    - Gas numbers are not modelled: [c_used] (gas consumed by the creating tx before the limit is computed)
-      and the per-block [b_oracle] (ids whose actions ran out of gas or panicked) are supplied from outside;
-      the only gas facts assumed are that a send needs at least [gas_lo] gas.  The gas limit is kept with
-      the trigger (Go keeps it under a separate key that is written at registration and deleted at
-      dequeue/destroy).
-    - [t_auths] and [t_prepaid] are ghost fields (the authorities and the gas limit of the creating
-      transaction): no transition reads them.
+    - Two coins that nothing but the modelled operations move: the action coin ([bank]) and a restricted
+      marker coin ([rbank]); banks are total functions to Z (no holds/vesting/restrictions on these accounts).
+      [cfg] (who has ACCESS_TRANSFER, who owns the restricted root name) never changes.
+    - Times are exact unix nanoseconds in Z (a time.Time may lie outside the int64 range of UnixNano: the Go
+      conversion wraps, [ev_order] takes it modulo 2^64); heights are < 2^64.
+    - Gas numbers are not modelled: [c_used] (gas consumed by the creating tx before the limit is computed),
+      the per-block [b_oracle] (ids whose actions ran out of gas or panicked) and [b_nest] (the gas limit a
+      trigger created BY a trigger action received = what was left on the running trigger's meter) are
+      supplied from outside; assumed: an action needs at least [gas_lo] gas, and after a nested creation the
+      running trigger's meter is empty, so any further action fails.  The gas limit is kept with the trigger
+      (Go keeps it under a separate key written at registration and deleted at dequeue/destroy).
+    - [t_auths], [t_root] and [t_prepaid] are ghost fields (the authorities of the creating message, the
+      signers of the transaction the trigger ultimately stems from, and the gas that paid for it): no
+      transition reads them.
     No proofs here. *)
 From Coq Require Import ZArith NArith List Bool.
 Import ListNotations.
@@ -49,69 +72,240 @@ Definition MaximumActions : nat := 5.
 Definition MaximumQueueGas : N := 2000000.
 Definition MaximumTriggerGas : N := 2000000.
 Definition SetGasLimitCost : N := 2510.
-Definition gas_lo : N := 4000.     (* a bank send consumes at least this much gas *)
+Definition gas_lo : N := 4000.     (* every action consumes at least this much gas *)
+Definition P_HEIGHT : N := 1.
+Definition P_TIME : N := 2.
+Definition two64 : Z := 18446744073709551616%Z.
 
 Inductive event :=
 | EvHeight (h : N)
-| EvTime (t : N)                                    (* unix NANOseconds, exact (time.Time.UnixNano) *)
-| EvTx (name : N) (attrs : list (N * N)).           (* attribute name, required value (0 = any) *)
+| EvTime (t : Z)                                    (* unix NANOseconds, exact *)
+| EvTx (name lname : N) (attrs : list (N * N)).     (* attribute name, required value (0 = any) *)
 
-Record emitted := { em_type : N; em_attrs : list (N * N) }.
+Record emitted := { em_type : N; em_ltype : N; em_attrs : list (N * N) }.
 
-(** [a_co]: required signers of the message besides [a_from] (none for a bank send).  The one
-    multi-signer message the harness uses is a nested MsgCreateTriggerRequest with authorities
-    [a_from :: a_co] whose own condition is a past block height: it passes ValidateBasic and its handler
-    always fails (ValidateContext); it is written with [a_amt = 0], which can never be sent. *)
-Record action := { a_from : addr; a_to : addr; a_amt : Z; a_co : list addr }.
-Definition a_signers (a : action) : list addr := a_from a :: a_co a.
+(** Messages a trigger may carry.  [act0]: everything but a creation; [ACreate]: a nested
+    MsgCreateTriggerRequest (its own actions are [act0]: one level of nesting is modelled). *)
+Inductive act0 :=
+| ASend (from to : addr) (amt : Z)
+| AMulti (from : addr) (inamt : Z) (outs : list (addr * Z))
+| AMarker (admin from to : addr) (amt : Z)
+| ABind (paddr : addr) (nm : N) (owner : addr)      (* bind <nm>.<root> to [owner]; [paddr] = claimed owner of the root *)
+| AGrant (granter grantee : addr) (exp : option Z)
+| ADestroy (who : addr) (id : N).
+
+Inductive action :=
+| ABasic (a : act0)
+| ACreate (auths : list addr) (ev : event) (acts : list act0).
+
+Definition signers0 (a : act0) : list addr :=
+  match a with
+  | ASend f _ _ => [f]
+  | AMulti f _ _ => [f]
+  | AMarker ad _ _ _ => [ad]
+  | ABind p _ _ => [p]
+  | AGrant g _ _ => [g]
+  | ADestroy w _ => [w]
+  end.
+
+Definition a_signers (a : action) : list addr :=
+  match a with ABasic b => signers0 b | ACreate au _ _ => au end.
 
 Record trigger := { t_id : N; t_owner : addr; t_event : event; t_actions : list action;
-                    t_auths : list addr; t_prepaid : N }.
+                    t_auths : list addr; t_root : list addr; t_prepaid : N }.
 
 Definition entry := (trigger * N)%type.             (* trigger with its gas limit *)
 Definition eid (e : entry) : N := t_id (fst e).
 
 Definition bank_t := addr -> Z.
 
-Record state := { reg : list entry; queue : list entry; next_id : N; bank : bank_t }.
+Record config := { xfer_admins : list addr; root_owner : addr }.
 
-Definition init (b : bank_t) : state := {| reg := []; queue := []; next_id := 1; bank := b |}.
+Record state := { cfg : config; reg : list entry; queue : list entry; next_id : N;
+                  bank : bank_t; rbank : bank_t; names : list (N * addr); grants : list (addr * addr) }.
+
+Definition init_cfg (c : config) (b rb : bank_t) : state :=
+  {| cfg := c; reg := []; queue := []; next_id := 1; bank := b; rbank := rb; names := []; grants := [] |}.
+
+Definition cfg0 : config := {| xfer_admins := []; root_owner := 0 |}.
+Definition init (b : bank_t) : state := init_cfg cfg0 b (fun _ => 0%Z).
+
+(** a state as InitGenesis leaves it *)
+Definition init_gen (c : config) (b rb : bank_t) (r q : list entry) (nx : N) : state :=
+  {| cfg := c; reg := r; queue := q; next_id := nx; bank := b; rbank := rb; names := []; grants := [] |}.
+
+Definition set_reg (s : state) (r : list entry) : state :=
+  {| cfg := cfg s; reg := r; queue := queue s; next_id := next_id s; bank := bank s; rbank := rbank s;
+     names := names s; grants := grants s |}.
+Definition set_queue (s : state) (q : list entry) : state :=
+  {| cfg := cfg s; reg := reg s; queue := q; next_id := next_id s; bank := bank s; rbank := rbank s;
+     names := names s; grants := grants s |}.
+Definition set_bank (s : state) (b : bank_t) : state :=
+  {| cfg := cfg s; reg := reg s; queue := queue s; next_id := next_id s; bank := b; rbank := rbank s;
+     names := names s; grants := grants s |}.
+Definition set_rbank (s : state) (b : bank_t) : state :=
+  {| cfg := cfg s; reg := reg s; queue := queue s; next_id := next_id s; bank := bank s; rbank := b;
+     names := names s; grants := grants s |}.
+Definition set_names (s : state) (l : list (N * addr)) : state :=
+  {| cfg := cfg s; reg := reg s; queue := queue s; next_id := next_id s; bank := bank s; rbank := rbank s;
+     names := l; grants := grants s |}.
+Definition set_grants (s : state) (l : list (addr * addr)) : state :=
+  {| cfg := cfg s; reg := reg s; queue := queue s; next_id := next_id s; bank := bank s; rbank := rbank s;
+     names := names s; grants := l |}.
 
 Definition mem (x : N) (l : list N) : bool := existsb (N.eqb x) l.
 
-(** * Bank sends *)
+(** * Effects and accept conditions of the basic actions *)
 Definition bupd (b : bank_t) (a : addr) (v : Z) : bank_t := fun x => if N.eqb x a then v else b x.
 
-Definition apply_send (b : bank_t) (a : action) : bank_t :=
-  let b1 := bupd b (a_from a) (b (a_from a) - a_amt a)%Z in
-  bupd b1 (a_to a) (b1 (a_to a) + a_amt a)%Z.
+Definition move (b : bank_t) (f t : addr) (amt : Z) : bank_t :=
+  let b1 := bupd b f (b f - amt)%Z in
+  bupd b1 t (b1 t + amt)%Z.
 
-(** the bank's Send handler rejects non-positive amounts and amounts above the sender's balance
-    (MsgSend has no ValidateBasic of its own in this SDK version, so this is only found out at run time) *)
-Definition can_send (b : bank_t) (a : action) : bool := (0 <? a_amt a)%Z && (a_amt a <=? b (a_from a))%Z.
+Definition credit (b : bank_t) (o : addr * Z) : bank_t := bupd b (fst o) (b (fst o) + snd o)%Z.
+Definition pay_outs (b : bank_t) (outs : list (addr * Z)) : bank_t := fold_left credit outs b.
+Definition sumZ (l : list Z) : Z := fold_right Z.add 0%Z l.
 
-(** All effects, unconditionally (the specification of "everything took effect"). *)
-Definition apply_all (b : bank_t) (acts : list action) : bank_t := fold_left apply_send acts b.
+Definition name_bound (nm : N) (l : list (N * addr)) : bool := existsb (fun p => fst p =? nm) l.
+Definition has_grant (g ge : addr) (l : list (addr * addr)) : bool :=
+  existsb (fun p => (fst p =? g) && (snd p =? ge)) l.
+Definition add_grant (g ge : addr) (l : list (addr * addr)) : list (addr * addr) :=
+  if has_grant g ge l then l else l ++ [(g, ge)].
 
-(** handleMsgs on the cache: stops at the first failing message. *)
-Fixpoint send_all (b : bank_t) (acts : list action) : option bank_t :=
-  match acts with
-  | [] => Some b
-  | a :: r => if can_send b a then send_all (apply_send b a) r else None
+Definition remove_id (i : N) (l : list entry) : list entry :=
+  filter (fun e => negb (eid e =? i)) l.
+
+Definition find_id (i : N) (l : list entry) : option entry :=
+  find (fun e => eid e =? i) l.
+
+(** the handler accepts the message in state [s] at block time [t] *)
+Definition pre0 (t : Z) (s : state) (a : act0) : bool :=
+  match a with
+  | ASend f _ amt => (0 <? amt)%Z && (amt <=? bank s f)%Z
+  | AMulti f inamt outs =>
+      negb (match outs with [] => true | _ => false end) && forallb (fun o => (0 <? snd o)%Z) outs
+      && (inamt =? sumZ (map snd outs))%Z && (inamt <=? bank s f)%Z
+  | AMarker ad f _ amt =>
+      (0 <? amt)%Z && mem ad (xfer_admins (cfg s)) && (ad =? f) && (amt <=? rbank s f)%Z
+  | ABind p nm _ => (p =? root_owner (cfg s)) && negb (name_bound nm (names s))
+  | AGrant g ge exp => negb (g =? ge) && match exp with None => true | Some x => (t <? x)%Z end
+  | ADestroy who id =>
+      negb (id =? 0) && match find_id id (reg s) with Some e => t_owner (fst e) =? who | None => false end
   end.
 
+(** what the message does when it is accepted (the specification of "it took effect") *)
+Definition eff0 (s : state) (a : act0) : state :=
+  match a with
+  | ASend f to amt => set_bank s (move (bank s) f to amt)
+  | AMulti f inamt outs => set_bank s (pay_outs (bupd (bank s) f (bank s f - inamt)%Z) outs)
+  | AMarker _ f to amt => set_rbank s (move (rbank s) f to amt)
+  | ABind _ nm owner => set_names s (names s ++ [(nm, owner)])
+  | AGrant g ge _ => set_grants s (add_grant g ge (grants s))
+  | ADestroy _ id => set_reg s (remove_id id (reg s))
+  end.
+
+Definition exec0 (t : Z) (s : state) (a : act0) : option state :=
+  if pre0 t s a then Some (eff0 s a) else None.
+
+(** * Validation of a creation *)
+Definition basic_ok0 (a : act0) : bool :=                     (* the message's own ValidateBasic *)
+  match a with
+  | AMarker _ _ _ amt => (0 <? amt)%Z                          (* only positive amounts are generated *)
+  | ADestroy _ id => negb (id =? 0)
+  | _ => true
+  end.
+
+Definition max_int64 : Z := 9223372036854775807%Z.
+
+(** Validate: a transaction event needs a non-blank name and non-blank attribute names; a block time must
+    fit the nanoseconds of its listener order (commit 0ecc451a1: not after time.Unix(0, MaxInt64)) *)
+Definition event_valid (ev : event) : bool :=
+  match ev with
+  | EvTx _ lname attrs => negb (lname =? 0) && forallb (fun p => negb (fst p =? 0)) attrs
+  | EvTime t => (t <=? max_int64)%Z
+  | EvHeight _ => true
+  end.
+
+Definition event_valid_ctx (h : N) (t : Z) (ev : event) : bool :=
+  match ev with
+  | EvHeight x => h <? x
+  | EvTime x => (t <? x)%Z
+  | EvTx _ _ _ => true
+  end.
+
+(** hasSigners: EVERY required signer of the action is one of the authorities *)
+Definition signed_by (auths : list addr) (sg : list addr) : bool := forallb (fun x => mem x auths) sg.
+
+Definition validate_basic0 (auths : list addr) (ev : event) (acts : list act0) : bool :=
+  negb (match acts with [] => true | _ => false end) && event_valid ev
+  && forallb (fun a => basic_ok0 a && signed_by auths (signers0 a)) acts.
+
+Definition basic_ok (a : action) : bool :=
+  match a with ABasic b => basic_ok0 b | ACreate au ev acts => validate_basic0 au ev acts end.
+
+Definition action_ok (auths : list addr) (a : action) : bool := basic_ok a && signed_by auths (a_signers a).
+
+Definition validate_basic (auths : list addr) (ev : event) (acts : list action) : bool :=
+  negb (match acts with [] => true | _ => false end) && event_valid ev && forallb (action_ok auths) acts.
+
+(** RegisterTrigger with a fresh id *)
+Definition register (s : state) (owner : addr) (auths root : list addr) (ev : event) (acts : list action)
+                    (lim prepaid : N) : state :=
+  let tr := {| t_id := next_id s; t_owner := owner; t_event := ev; t_actions := acts;
+               t_auths := auths; t_root := root; t_prepaid := prepaid |} in
+  {| cfg := cfg s; reg := reg s ++ [(tr, lim)]; queue := queue s; next_id := next_id s + 1;
+     bank := bank s; rbank := rbank s; names := names s; grants := grants s |}.
+
+(** * runActions *)
+(** one action of the running trigger [(root, plim)]: [nl] = the gas limit a nested creation receives *)
+Definition exec_action (h : N) (t : Z) (root : list addr) (plim : N) (nl : option N) (s : state) (a : action)
+  : option state :=
+  match a with
+  | ABasic b => exec0 t s b
+  | ACreate au ev acts =>
+      match nl, au with
+      | Some lim, owner :: _ =>
+          if validate_basic0 au ev acts && event_valid_ctx h t ev && (lim + SetGasLimitCost <=? plim)
+          then Some (register s owner au root ev (map ABasic acts) lim plim)
+          else None
+      | _, _ => None
+      end
+  end.
+
+(** handleMsgs on the cache: stops at the first failing message; a nested creation hands ALL the gas that is
+    left to the new trigger, so nothing can run after it *)
+Fixpoint exec_all (h : N) (t : Z) (root : list addr) (plim : N) (nl : option N) (s : state) (acts : list action)
+  : option state :=
+  match acts with
+  | [] => Some s
+  | a :: r =>
+      match exec_action h t root plim nl s a with
+      | None => None
+      | Some s1 =>
+          match a, r with
+          | ACreate _ _ _, _ :: _ => None
+          | _, _ => exec_all h t root plim nl s1 r
+          end
+      end
+  end.
+
+Definition lookupN (i : N) (l : list (N * N)) : option N :=
+  match find (fun p => fst p =? i) l with Some p => Some (snd p) | None => None end.
+
 (** runActions: the cache is flushed only when every action succeeded. *)
-Definition run_actions (b : bank_t) (e : entry) (oracle : list N) : bank_t * bool :=
+Definition run_actions (h : N) (t : Z) (s : state) (e : entry) (oracle : list N) (nest : list (N * N))
+  : state * bool :=
   let acts := t_actions (fst e) in
-  if snd e <? gas_lo * N.of_nat (length acts) then (b, false)
-  else if mem (eid e) oracle then (b, false)
-  else match send_all b acts with
-       | Some b' => (b', true)
-       | None => (b, false)
+  if snd e <? gas_lo * N.of_nat (length acts) then (s, false)
+  else if mem (eid e) oracle then (s, false)
+  else match exec_all h t (t_root (fst e)) (snd e) (lookupN (eid e) nest) s acts with
+       | Some s' => (s', true)
+       | None => (s, false)
        end.
 
 (** * ProcessTriggers *)
-Fixpoint dispatch (fuel : nat) (gas : N) (s : state) (oracle : list N) : state * list (entry * bool) :=
+Fixpoint dispatch (fuel : nat) (h : N) (t : Z) (gas : N) (s : state) (oracle : list N) (nest : list (N * N))
+  : state * list (entry * bool) :=
   match fuel with
   | O => (s, [])
   | S f =>
@@ -120,9 +314,8 @@ Fixpoint dispatch (fuel : nat) (gas : N) (s : state) (oracle : list N) : state *
       | e :: rest =>
           if MaximumQueueGas <? snd e + gas then (s, [])
           else
-            let '(b', ok) := run_actions (bank s) e oracle in
-            let s1 := {| reg := reg s; queue := rest; next_id := next_id s; bank := b' |} in
-            let '(s2, l) := dispatch f (gas + snd e) s1 oracle in
+            let '(s1, ok) := run_actions h t (set_queue s rest) e oracle nest in
+            let '(s2, l) := dispatch f h t (gas + snd e) s1 oracle nest in
             (s2, (e, ok) :: l)
       end
   end.
@@ -133,25 +326,6 @@ Inductive tx :=
 | TDestroy (who : addr) (id : N)
 | TSend (from to : addr) (amt : Z).
 
-(** hasSigners: EVERY required signer of the action is one of the authorities *)
-Definition action_ok (auths : list addr) (a : action) : bool := forallb (fun x => mem x auths) (a_signers a).
-
-Definition event_valid (ev : event) : bool :=
-  match ev with
-  | EvTx name attrs => negb (name =? 0) && forallb (fun p => negb (fst p =? 0)) attrs
-  | _ => true
-  end.
-
-Definition event_valid_ctx (h t : N) (ev : event) : bool :=
-  match ev with
-  | EvHeight x => h <? x
-  | EvTime x => t <? x
-  | EvTx _ _ => true
-  end.
-
-Definition validate_basic (auths : list addr) (ev : event) (acts : list action) : bool :=
-  negb (match acts with [] => true | _ => false end) && event_valid ev && forallb (action_ok auths) acts.
-
 Fixpoint addrs_eqb (x y : list addr) : bool :=
   match x, y with
   | [], [] => true
@@ -159,13 +333,7 @@ Fixpoint addrs_eqb (x y : list addr) : bool :=
   | _, _ => false
   end.
 
-Definition remove_id (i : N) (l : list entry) : list entry :=
-  filter (fun e => negb (eid e =? i)) l.
-
-Definition find_id (i : N) (l : list entry) : option entry :=
-  find (fun e => eid e =? i) l.
-
-Definition apply_tx (h t : N) (s : state) (x : tx) : state * bool :=
+Definition apply_tx (h : N) (t : Z) (s : state) (x : tx) : state * bool :=
   match x with
   | TCreate signers auths ev acts txgas used =>
       if negb (validate_basic auths ev acts) then (s, false)
@@ -179,26 +347,15 @@ Definition apply_tx (h t : N) (s : state) (x : tx) : state * bool :=
         if remaining <? SetGasLimitCost then (s, false)     (* uint64 underflow, capped, then out of gas *)
         else
           let lim := N.min (remaining - SetGasLimitCost) MaximumTriggerGas in
-          let tr := {| t_id := next_id s; t_owner := owner; t_event := ev; t_actions := acts;
-                       t_auths := auths; t_prepaid := txgas |} in
-          ({| reg := reg s ++ [(tr, lim)]; queue := queue s; next_id := next_id s + 1; bank := bank s |}, true)
+          (register s owner auths auths ev acts lim txgas, true)
       end
   | TDestroy who id =>
-      if id =? 0 then (s, false)
-      else match find_id id (reg s) with
-      | None => (s, false)
-      | Some e =>
-          if negb (t_owner (fst e) =? who) then (s, false)
-          else ({| reg := remove_id id (reg s); queue := queue s; next_id := next_id s; bank := bank s |}, true)
-      end
+      match exec0 t s (ADestroy who id) with Some s' => (s', true) | None => (s, false) end
   | TSend from to amt =>
-      let a := {| a_from := from; a_to := to; a_amt := amt; a_co := [] |} in
-      if can_send (bank s) a
-      then ({| reg := reg s; queue := queue s; next_id := next_id s; bank := apply_send (bank s) a |}, true)
-      else (s, false)
+      match exec0 t s (ASend from to amt) with Some s' => (s', true) | None => (s, false) end
   end.
 
-Fixpoint apply_txs (h t : N) (s : state) (l : list tx) : state * list bool :=
+Fixpoint apply_txs (h : N) (t : Z) (s : state) (l : list tx) : state * list bool :=
   match l with
   | [] => (s, [])
   | x :: r =>
@@ -207,28 +364,16 @@ Fixpoint apply_txs (h t : N) (s : state) (l : list tx) : state * list bool :=
       (s2, ok :: oks)
   end.
 
-(** * Detection *)
-Definition attr_matches (want : N * N) (got : N * N) : bool :=
-  (fst want =? fst got) && ((snd want =? 0) || (snd want =? snd got)).
+(** * Event listeners *)
+Definition ev_prefix (ev : event) : N :=
+  match ev with EvHeight _ => P_HEIGHT | EvTime _ => P_TIME | EvTx _ l _ => l end.
 
-Definition tx_matches (name : N) (attrs : list (N * N)) (e : emitted) : bool :=
-  (name =? em_type e) && forallb (fun w => existsb (attr_matches w) (em_attrs e)) attrs.
+(** GetEventOrder: uint64(Time.UnixNano()) wraps *)
+Definition ev_order (ev : event) : N :=
+  match ev with EvHeight h => h | EvTime t => Z.to_N (t mod two64) | EvTx _ _ _ => 0 end.
 
-Definition listens (ty : N) (x : entry) : bool :=
-  match t_event (fst x) with EvTx name _ => name =? ty | _ => false end.
+Definition lkey (x : entry) : N * N := (ev_order (t_event (fst x)), eid x).
 
-Definition ev_matches (e : emitted) (x : entry) : bool :=
-  match t_event (fst x) with EvTx name attrs => tx_matches name attrs e | _ => false end.
-
-Fixpoint detect_tx (evs : list emitted) (r : list entry) (seen : list N) : list entry :=
-  match evs with
-  | [] => []
-  | e :: rest =>
-      let cands := filter (fun x => listens (em_type e) x && negb (mem (eid x) seen)) r in
-      filter (ev_matches e) cands ++ detect_tx rest r (map eid cands ++ seen)
-  end.
-
-(** listener order: (order, id) *)
 Definition key_le (a b : N * N) : bool :=
   (fst a <? fst b) || ((fst a =? fst b) && (snd a <=? snd b)).
 
@@ -241,37 +386,63 @@ Fixpoint insert_by (k : entry -> N * N) (x : entry) (l : list entry) : list entr
 Definition sort_by (k : entry -> N * N) (l : list entry) : list entry :=
   fold_right (insert_by k) [] l.
 
-Definition height_of (x : entry) : option N := match t_event (fst x) with EvHeight v => Some v | _ => None end.
-Definition time_of (x : entry) : option N := match t_event (fst x) with EvTime v => Some v | _ => None end.
+(** IterateEventListeners(prefix): the listeners under one prefix in key order *)
+Definition listeners (p : N) (r : list entry) : list entry :=
+  sort_by lkey (filter (fun x => ev_prefix (t_event (fst x)) =? p) r).
 
-Definition ord_key (f : entry -> option N) (x : entry) : N * N :=
-  (match f x with Some v => v | None => 0 end, eid x).
+(** getMatchingTriggersUntil: collect the matches, stop after the first element the terminator accepts *)
+Fixpoint scan (mt tm : entry -> bool) (l : list entry) : list entry :=
+  match l with
+  | [] => []
+  | x :: r => (if mt x then [x] else []) ++ (if tm x then [] else scan mt tm r)
+  end.
 
-Definition ready (f : entry -> option N) (now : N) (x : entry) : bool :=
-  match f x with Some v => v <=? now | None => false end.
+(** * Detection *)
+Definition attr_matches (want : N * N) (got : N * N) : bool :=
+  (fst want =? fst got) && ((snd want =? 0) || (snd want =? snd got)).
 
-Definition detect_height (h : N) (r : list entry) : list entry :=
-  sort_by (ord_key height_of) (filter (ready height_of h) r).
+Definition tx_matches (name : N) (attrs : list (N * N)) (e : emitted) : bool :=
+  (name =? em_type e) && forallb (fun w => existsb (attr_matches w) (em_attrs e)) attrs.
 
-Definition detect_time (t : N) (r : list entry) : list entry :=
-  sort_by (ord_key time_of) (filter (ready time_of t) r).
+Definition is_tx (x : entry) : bool := match t_event (fst x) with EvTx _ _ _ => true | _ => false end.
 
-Definition detect (h t : N) (evs : list emitted) (r : list entry) : list entry :=
+Definition ev_matches (e : emitted) (x : entry) : bool :=
+  match t_event (fst x) with EvTx name _ attrs => tx_matches name attrs e | _ => false end.
+
+Fixpoint detect_tx (evs : list emitted) (r : list entry) (seen : list N) : list entry :=
+  match evs with
+  | [] => []
+  | e :: rest =>
+      let cands := filter (fun x => is_tx x && negb (mem (eid x) seen)) (listeners (em_ltype e) r) in
+      let matched := filter (ev_matches e) cands in
+      matched ++ detect_tx rest r (map eid matched ++ seen)
+  end.
+
+Definition h_match (h : N) (x : entry) : bool := match t_event (fst x) with EvHeight v => v <=? h | _ => false end.
+Definition h_term (h : N) (x : entry) : bool := match t_event (fst x) with EvHeight v => h <? v | _ => false end.
+Definition t_match (t : Z) (x : entry) : bool := match t_event (fst x) with EvTime v => (v <=? t)%Z | _ => false end.
+Definition t_term (t : Z) (x : entry) : bool := match t_event (fst x) with EvTime v => (t <? v)%Z | _ => false end.
+
+Definition detect_height (h : N) (r : list entry) : list entry := scan (h_match h) (h_term h) (listeners P_HEIGHT r).
+Definition detect_time (t : Z) (r : list entry) : list entry := scan (t_match t) (t_term t) (listeners P_TIME r).
+
+Definition detect (h : N) (t : Z) (evs : list emitted) (r : list entry) : list entry :=
   detect_tx evs r [] ++ detect_height h r ++ detect_time t r.
 
 (** UnregisterTrigger + QueueTrigger for every detected trigger, in order. *)
 Definition move_one (s : state) (e : entry) : state :=
-  {| reg := remove_id (eid e) (reg s); queue := queue s ++ [e]; next_id := next_id s; bank := bank s |}.
+  set_queue (set_reg s (remove_id (eid e) (reg s))) (queue s ++ [e]).
 
 Definition move_all (s : state) (d : list entry) : state := fold_left move_one d s.
 
 (** * Blocks *)
-Record block := { b_height : N; b_time : N; b_oracle : list N; b_txs : list tx; b_events : list emitted }.
+Record block := { b_height : N; b_time : Z; b_oracle : list N; b_nest : list (N * N);
+                  b_txs : list tx; b_events : list emitted }.
 
 Record bout := { o_disp : list (entry * bool); o_txres : list bool; o_det : list entry }.
 
 Definition step (s : state) (b : block) : state * bout :=
-  let '(s1, d) := dispatch MaximumActions 0 s (b_oracle b) in
+  let '(s1, d) := dispatch MaximumActions (b_height b) (b_time b) 0 s (b_oracle b) (b_nest b) in
   let '(s2, r) := apply_txs (b_height b) (b_time b) s1 (b_txs b) in
   let dt := detect (b_height b) (b_time b) (b_events b) (reg s2) in
   (move_all s2 dt, {| o_disp := d; o_txres := r; o_det := dt |}).
